@@ -53,3 +53,9 @@ pub fn vmap_opt<'a, T, U, F: FnOnce(&'a T) -> U>(o: Option<&'a T>, f: F) -> (r: 
 {
     match o { Some(x) => Some(f(x)), None => None }
 }
+pub fn vmap_owned<T, U, F: FnOnce(T) -> U>(o: Option<T>, f: F) -> (r: Option<U>)
+    requires o is Some ==> f.requires((o->Some_0,)),
+    ensures match o { Some(x) => r is Some && f.ensures((x,), r->Some_0), None => r is None },
+{
+    match o { Some(x) => Some(f(x)), None => None }
+}
